@@ -411,9 +411,10 @@ def _c02_handover(tr: Trace, accepted: list[tuple]) -> list[Violation]:
     the routing rule (c) says WHO is owed the event; this rule says the delivery is made.  Everything is recomputed from
     the reducer's inputs and outputs, not from its queue/in_progress tables: a delivery is owed from the add-event tick on
     (recipients from the static graph), it is made by the CommandRunWorker that starts the step on that event, and a
-    worker of a step is busy from a CommandRunWorker for its slot until the result tick of that slot is reduced.  After
-    every reduction that does not end the run, an owed delivery of a step with a free worker is a lost event: nothing
-    further has to happen for that step, so nothing will hand the event over (it would take an unrelated later tick)."""
+    worker of a step is busy from the CommandRunWorker that starts an invocation until that invocation's result tick is
+    reduced (counted per step, independent of worker ids).  After every reduction that does not end the run, an owed
+    delivery of a step with a free worker is a lost event: nothing further has to happen for that step, so nothing will
+    hand the event over (it would take an unrelated later tick)."""
     if tr.spec.get("_resumed") or any(c.kind == "rewind" and any(isinstance(k, C.CommandRunWorker) for k in c.cmds) for c in tr.calls):
         return []  # a resumed run starts with deliveries owed by the previous run: not tracked here
     nw = _nw(tr)
@@ -421,32 +422,32 @@ def _c02_handover(tr: Trace, accepted: list[tuple]) -> list[Violation]:
     for (c, name, e) in accepted:
         owed_at.setdefault(id(c), []).append((name, e))
     owed: list[list] = []  # [step, event, index of the add-event reduction]
-    busy: dict[str, set] = {}
+    busy: dict[str, int] = {}  # invocations started and not yet reported back, per step (a count: independent of the worker ids)
     calls = _runner_calls(tr)
     for i, c in enumerate(calls):
         if c.kind != "reduce" or c.error is not None or c.after is None:
             continue
         if isinstance(c.tick, T.TickStepResult):
-            busy.setdefault(c.tick.step_name, set()).discard(c.tick.worker_id)
+            busy[c.tick.step_name] = busy.get(c.tick.step_name, 0) - 1
         for (name, e) in owed_at.get(id(c), []):
             owed.append([name, e, i])
         for k in c.cmds:
             if isinstance(k, C.CommandRunWorker):
-                busy.setdefault(k.step_name, set()).add(k.id)
+                busy[k.step_name] = busy.get(k.step_name, 0) + 1
                 hit = next((o for o in owed if o[0] == k.step_name and o[1] is k.event), None)
                 if hit is not None:
                     owed.remove(hit)
         if _is_exit(c.cmds):
             break  # the run ends here (a stuck run: with the harness's own cancel)
         for (name, e, at) in owed:
-            if len(busy.get(name, ())) < nw.get(name, 4):
+            if busy.get(name, 0) < nw.get(name, 4):
                 how = _c02_turn_end(c.tick, c.cmds)
                 same = isinstance(c.tick, T.TickStepResult) and c.tick.step_name == name
                 return [Violation(f"C02/accepted_event_not_handed_to_step_with_free_worker:after_{how if same else 'other_tick'}",
                                   f"event uid={getattr(e, 'uid', None)} T{ET.TY_ID.get(type(e))} was accepted for step {name} by reduction #{at} (add-event tick) and is "
                                   f"still not handed to it after reduction #{i} ({type(c.tick).__name__}"
                                   + (f" of {c.tick.step_name} worker {c.tick.worker_id}: the invocation {how.replace('_', ' ')}" if isinstance(c.tick, T.TickStepResult) else "")
-                                  + f"), although only {len(busy.get(name, ()))} of the step's {nw.get(name, 4)} worker(s) are busy and the run goes on", _replay(tr))]
+                                  + f"), although only {busy.get(name, 0)} of the step's {nw.get(name, 4)} worker(s) are busy and the run goes on", _replay(tr))]
     # the same, end to end on the step bodies: the run went quiescent (nothing runnable, no timer, no terminal event) with an
     # accepted event that never entered its step while the step had a free worker
     if any("stuck: cancelled by harness" in n for n in tr.notes) and not any(s.get("sync") for s in tr.spec["steps"]):
